@@ -63,3 +63,20 @@ Example C02_example :
   sys_wf sy = true /\ nodup_exprs (s_inputs sy) = true /\ no_array_init sy = true /\
   bmc_spec sy 2 = None /\ bmc_spec sy 5 = Some 3%nat.
 Proof. vm_compute. repeat split. Qed.
+
+(** Algorithm layer (Model/Bmc.v: the loop of bmc.rs over an abstract solver).
+    Over any solver that answers "sat" exactly when the query has a model,
+    checking the bad states individually or jointly gives the same result - for
+    the repaired encoding of every well-formed system.  (The exactness of the loop
+    with respect to [bmc_spec] is NOT proved: see the end of Proofs/BmcProofs.v for
+    the statement and the missing ingredient.) *)
+From Patronus Require Import Encoding EncodingWf Bmc BmcProofs.
+Theorem C02_bmc_modes_agree :
+  forall (solver_sat : list cmd -> list expr -> list expr -> bool),
+    (forall sc asserts assumps,
+        solver_sat sc asserts assumps = true <-> exists sigma0, is_model sc asserts assumps sigma0) ->
+    forall (sy : sys) (nm : expr -> string) (k_max : nat),
+      sys_wf sy = true -> names_ok (enc_new sy nm) = true -> init_reads_ok (enc_new sy nm) ->
+      bmc_model Fixed solver_sat sy nm true k_max = bmc_model Fixed solver_sat sy nm false k_max.
+Proof. exact bmc_modes_agree_final. Qed.
+Print Assumptions C02_bmc_modes_agree.
